@@ -61,7 +61,16 @@ fn now_stub() -> Instant {
 // `drop(tx)` in close() frees the crossbeam channel (dependency internals, very expensive for CBMC):
 // the explicit drop is replaced by forget; nothing checked here depends on the deallocation
 fn drop_stub<T>(x: T) {
-    std::mem::forget(x)
+    // only the sender (the crossbeam channel behind it) is leaked; everything else -- in particular a mutex guard
+    // released with an explicit drop(guard) -- is really dropped, at the end of this scope
+    if std::mem::size_of::<T>() == std::mem::size_of::<SenderChannel<u8>>() && std::mem::needs_drop::<T>() && std::mem::align_of::<T>() == std::mem::align_of::<SenderChannel<u8>>() && !is_guard::<T>() {
+        std::mem::forget(x)
+    } else {
+        let _dropped_here = x;
+    }
+}
+fn is_guard<T>() -> bool {
+    std::mem::size_of::<T>() == std::mem::size_of::<std::sync::MutexGuard<'static, Option<SenderChannel<u8>>>>()
 }
 
 fn mk(open: bool) -> StoreImpl<u8, u8> {
